@@ -271,7 +271,7 @@ class Ctx:
 
 
 MATH_FUNCS = {'sin', 'cos', 'tan', 'atan', 'atan2', 'exp', 'log', 'sqrt', 'fabs', 'pow', 'asin', 'radians',
-              'degrees', 'floor'}
+              'degrees', 'floor', 'copysign', 'hypot', 'acos', 'ceil'}
 
 
 class Evaluator:
